@@ -30,6 +30,9 @@ class PythonTask(object):
         if not callable(func):
             raise ValueError('task function not callable')
 
+        if args   is None: args   = ()
+        if kwargs is None: kwargs = {}
+
         task = {'func'  : serialize_obj(func),
                 'args'  : args,
                 'kwargs': kwargs}
@@ -63,8 +66,8 @@ class PythonTask(object):
         pytask = deserialize_bson(bson_obj)
         if any(key not in pytask for key in ('args', 'func', 'kwargs')):
             raise TypeError('Encoded object does not have the expected schema.')
-        args   = list(pytask['args'])
-        kwargs = pytask['kwargs']
+        args   = list(pytask['args'] or ())
+        kwargs = pytask['kwargs'] or {}
         func   = deserialize_obj(pytask['func'])
 
         return func, args, kwargs
